@@ -38,10 +38,10 @@ def outJ : Out → J
 
 def parseCfg (j : J) : Except String Cfg :=
   match j.get? "cfg" with
-  | none => pure Cfg.repaired
-  | some c => do pure ⟨← c.boolean "d3", ← c.boolean "down", ← c.boolean "read", ← c.boolean "err"⟩
+  | none => throw "missing cfg (the harness reads the variant off the source)"
+  | some c => do pure ⟨← c.boolean "d3", ← c.boolean "down", ← c.boolean "read", ← c.boolean "err", ← c.boolean "dpid"⟩
 
-/-- request {"ops":[…],"dpids":[…], "cfg"?:{d3,down,read,err}} → {"steps":[[out…]…] (chronological), "reg":[[d, c|null]…],
+/-- request {"ops":[…],"dpids":[…], "cfg":{d3,down,read,err,dpid}} → {"steps":[[out…]…] (chronological), "reg":[[d, c|null]…],
     "regnone": c|null, "conns":[{dpid,up,disc,down_raised,closed}…], "next_xid":n} -/
 def handle (j : J) : Except String J := do
   let cfg ← parseCfg j
